@@ -129,8 +129,12 @@ def rich_nexus_docs(draw, max_taxa=5, max_trees=3, max_blocks=3, max_chars=6, re
     taxa_block = draw(st.integers(0, 2)) > 0 if taxa is None else taxa
     out = "#NEXUS\n"
     numbered = None
+    # Mesquite style: the TAXA block has a TITLE and every later block refers to it with LINK TAXA
+    linked = taxa_block and draw(st.integers(0, 2)) == 0
+    link_title = draw(st.sampled_from(["Taxa1", "Taxa", "my_taxa"])) if linked else None
     if taxa_block:
-        out += "BEGIN TAXA;\n  DIMENSIONS NTAX=%d;\n  TAXLABELS %s;\nEND;\n" % (ntax, " ".join(label_texts))
+        out += "BEGIN TAXA;\n%s  DIMENSIONS NTAX=%d;\n  TAXLABELS %s;\nEND;\n" % (
+            "  TITLE %s;\n" % link_title if linked else "", ntax, " ".join(label_texts))
         numbered = dict((i, i + 1) for i in range(ntax))
     matrices = []
     n_matrix = draw(st.sampled_from([0, 0, 0, 1, 1, 2]))
@@ -143,7 +147,7 @@ def rich_nexus_docs(draw, max_taxa=5, max_trees=3, max_blocks=3, max_chars=6, re
         if kind == "M":
             title = "M%d" % len(matrices) if n_matrix > 1 else None
             text, m = draw(docs._nexus_matrix_block(labels, label_texts, taxa_block or bool(matrices), False, max_chars,
-                                                    title, None))
+                                                    title, link_title))
             out += text
             matrices.append(m)
             if draw(st.booleans()):
@@ -154,6 +158,9 @@ def rich_nexus_docs(draw, max_taxa=5, max_trees=3, max_blocks=3, max_chars=6, re
             continue
         taxa = list(range(ntax))
         out += "BEGIN TREES;\n"
+        if linked:
+            out += "  LINK TAXA = %s;\n" % link_title
+            feats["linked"] = True
         if draw(st.integers(0, 3)) == 0:
             out += "  " + draw(st.sampled_from(PRE_COMMENTS + PRE_META)) + "\n"
         style = draw(st.sampled_from(["labels", "labels", "translate", "translate"] + (["numbers"] if numbered else [])))
